@@ -543,13 +543,15 @@ func c03SourceDateEpochSet(run *ev.Run, tier string, st *digStats) {
 			continue
 		}
 		y := c.Spec.YAML()
-		for _, sde := range []string{"1000000000", "2000000001", "-86400"} { // the last: a date before 1970
+		for _, sde := range []string{"1000000000", "2000000001", "-86400", "10000000000"} { // a date before 1970, one after 2262 (rpm's 32 bit fields may refuse it: loud)
 			_ = os.Setenv("SOURCE_DATE_EPOCH", sde)
 			for _, f := range formats {
 				run.Case(fmt.Sprintf("source-date-epoch-set|%s|configured-mtime=%v|%s|%d", sde, c.Spec.MTime != 0, f, i), true)
 				res := buildYAML(y, f)
 				if res.Err != nil || res.Panic != "" {
-					run.Violate("C03/"+f+"/build-error", map[string]any{"case": 31000 + i, "SOURCE_DATE_EPOCH": sde, "error": fmt.Sprint(res.Err, ev.Short(res.Panic, 200))})
+					if len(sde) < 11 {
+						run.Violate("C03/"+f+"/build-error", map[string]any{"case": 31000 + i, "SOURCE_DATE_EPOCH": sde, "error": fmt.Sprint(res.Err, ev.Short(res.Panic, 200))})
+					}
 					continue
 				}
 				built++
